@@ -5,6 +5,30 @@ ROOT = os.path.dirname(os.path.abspath(__file__))
 
 CLAIMED = {
  # id: (category, technique, level text, level note, design ref)
+ "C10": ("exploration", "runtime differential monitor: identical seeded cases executed on pairs of backends, coefficient-domain outputs compared byte for byte",
+         "The 83-operation HAL catalogue is replayed on FFT64Ref/FFT64Avx, NTT120Ref/NTT120Avx and on the two families against each other (operand widths inside the "
+         "FFT64 exactness domain), including N = 1, 2, 4 (SIMD tails), extreme digits, cross-radix normalisation and the random-stream consumption of the sampling ops. "
+         "This is the only place where the AVX crates are built and exercised at all. Held on the executions observed; scheme-level pipelines are compared in C19/C01.",
+         "Trusted: determinism of the case generator; DFT-domain buffers are never compared directly. Known finding F24 (cross-family rounding of cross-radix big normalisation) is listed, not suppressed elsewhere.",
+         "DESIGN.md §C10"),
+ "C11": ("exploration", "runtime metamorphic monitor: double run from two garbage fills + whole-buffer diff; ASan with every unselected byte poisoned",
+         "Each HAL operation is executed twice on identical inputs but different previous contents of the result buffer (all columns, spare capacity) and scratch; any difference in the "
+         "selected output, any change outside it (other columns, limbs beyond size, read-only operands, canary guards) or any access to a poisoned byte is a violation. Oracle-free, so it "
+         "also sees stale limbs that every backend leaves equally stale. Held on the executions observed.",
+         "Trusted: the catalogue's notion of 'selected output' (column res_col, limbs 0..size); HAL operations only in this revision.",
+         "DESIGN.md §C11"),
+ "C12": ("exploration", "runtime monitor: exact-size scratch windows with red zone + two fills; valgrind memcheck and Miri with uninitialised windows",
+         "Every scratch-taking HAL operation is called with a window of exactly the bytes its *_tmp_bytes query returns, placed flush against the end of its allocation: a panic for lack of "
+         "space, a guard/red-zone hit (ASan), a result that depends on the fill, or a use of uninitialised scratch reaching the output (memcheck on four backends, Miri on the reference ones) "
+         "is a violation. Held on the executions observed.",
+         "Trusted: ASan/memcheck/Miri; HAL (operation, query) pairs in this revision, higher layers are exercised with exact windows inside the scheme-level checks where wired.",
+         "DESIGN.md §C12"),
+ "C17": ("exploration", "sanitizers: AddressSanitizer (poisoned neighbours), valgrind memcheck, Miri, canary guards over the HAL catalogue",
+         "The HAL catalogue (83 operations, N from 1, odd limb counts, 1..3 columns, size < capacity, exact scratch windows carved from guarded allocations) runs under ASan on all four backends, "
+         "under memcheck on all four (covers the global_asm FFT16 kernels) and under Miri on the reference backends; any report, canary change or bounds panic is a violation. "
+         "A clean run is evidence for the calls observed, not memory safety.",
+         "Trusted: the sanitizers; Miri runs with the System allocator (documented CRITICAL-2 layout mismatch is outside the property).",
+         "DESIGN.md §C17"),
  "C07": ("exploration", "runtime monitor: exact schoolbook oracle (i128) on DFT-domain pipelines read back through the inverse transform, four backends",
          "Every DFT-domain operation is executed on random shapes (incl. mismatched sizes, offsets past the end, masks, all value classes with aligned extreme digits) at "
          "the largest operand width the backend's exactness predicate admits, and the big-accumulator result is compared bit for bit with the exact negacyclic / "
